@@ -238,6 +238,44 @@ def main():
                 print("%s %s:%d [%s]\n    - %s\n    + %s%s" % (r["id"], r["file"], r["line"], r["kind"], r["old"].strip(), r["new"].strip(),
                                                                ("\n    => " + ", ".join(sorted(x for v in r["fired"].values() for x in v))) if r.get("fired") else ""))
         return
+    if args.cmd == "recheck":
+        # run the checks again (current rules) on every mutant of class A: compiles, passes the tests, was not reported
+        A = [r for r in results.values() if r.get("compiles") and not r.get("warnings") and r.get("tests_pass") and not r.get("fired")]
+        root = "/tmp/mutre"
+        os.makedirs(root, exist_ok=True)
+        wt = os.path.join(root, "w")
+        subprocess.check_call(["git", "-C", REPO, "worktree", "add", "--detach", wt, "HEAD", "-q"])
+        try:
+            for m in sorted(A, key=lambda r: (r["file"], r["line"])):
+                sh("git checkout -- . && git clean -fdq", wt)
+                p = os.path.join(wt, m["file"])
+                lines = open(p).read().split("\n")
+                span = m["old"].count("\n") + 1
+                if "\n".join(lines[m["line"] - 1:m["line"] - 1 + span]) != m["old"]:
+                    continue
+                lines[m["line"] - 1:m["line"] - 1 + span] = m["new"].split("\n")
+                open(p, "w").write("\n".join(lines))
+                fired = {}
+
+                def one(pid):
+                    r = subprocess.run(["/verif/check", pid, "--repo", wt], stdout=subprocess.PIPE, stderr=subprocess.STDOUT, text=True)
+                    return pid, r.returncode, sorted(set(re.findall(r"rule=(\S+)", r.stdout)))
+                pid, rc2, rules = one("C09")
+                if rc2 != 0:
+                    fired[pid] = rules
+                with concurrent.futures.ThreadPoolExecutor(max_workers=8) as ex:
+                    for pid, rc2, rules in ex.map(one, [x for x in PROPS if x != "C09"]):
+                        if rc2 != 0:
+                            fired[pid] = rules
+                if fired:
+                    results[m["id"]]["fired"] = fired
+                    results[m["id"]]["fired_on_recheck"] = True
+                    save(results)
+                print("%s %s:%d %s | %s" % (m["id"], m["file"], m["line"], m["kind"], ",".join(sorted(r for v in fired.values() for r in v)) or "-"), flush=True)
+        finally:
+            subprocess.call(["git", "-C", REPO, "worktree", "remove", "--force", wt])
+            shutil.rmtree(root, ignore_errors=True)
+        return
     cand = [s for s in all_sites if s["id"] not in results]
     if args.files:
         cand = [s for s in cand if any(f in s["file"] for f in args.files.split(","))]
